@@ -10,10 +10,12 @@ pub mod c11;
 pub mod c12;
 pub mod c16;
 pub mod c17;
+pub mod c18;
 pub mod c19;
 pub mod c20;
 pub mod dp;
+pub mod traffic;
 
 pub fn all() -> Vec<Property> {
-    vec![c01::property(), c02::property(), dp::c03(), dp::c04(), c06::property(), dp::c07(), dp::c08(), c09::property(), c10::property(), c11::property(), c12::property(), dp::c14(), c16::property(), c17::property(), c19::property(), c20::property()]
+    vec![c01::property(), c02::property(), dp::c03(), dp::c04(), c06::property(), dp::c07(), dp::c08(), c09::property(), c10::property(), c11::property(), c12::property(), traffic::c13(), dp::c14(), traffic::c15(), c16::property(), c17::property(), c18::property(), c19::property(), c20::property()]
 }
